@@ -189,7 +189,13 @@ namespace pika::detail {
     bool stop_state::add_callback(stop_callback_base* cb) noexcept
     {
         scoped_lock_if_not_stopped l(*this, cb);
-        if (!l) return false;
+        if (!l)
+        {
+            // Not registered: the callback either has just run (stop had been requested) or can
+            // never run (no stop_source is left). Its destructor must not wait for it.
+            cb->callback_finished_executing_.store(true, std::memory_order_release);
+            return false;
+        }
 
         // Push callback onto callback list
         cb->add_this_callback(callbacks_);
